@@ -4,12 +4,12 @@ CONSTANTS
     Depth = 0
     Calls <- CapCalls
     MaxCalls = 1
-    Inst = {1}
-    Limit = 3
-    CapN = 2
-    Cache = 0
+    Inst = {1, 2}
+    Limit = 0
+    CapN = 0
+    Cache = 4096
     Compress = FALSE
-    ExtK = 0
+    ExtK = 1
     CapProbe = TRUE
     Debug = FALSE
     HookMode = "ok"
